@@ -2,6 +2,7 @@ package main
 
 import (
 	"fmt"
+	"reflect"
 	"go/token"
 	"go/types"
 	"sort"
@@ -62,6 +63,14 @@ type cliEngine struct {
 }
 
 type cliEnv map[ssa.Value]absVal
+
+// sameAs reports whether two environments are the very same map (not yet copied).
+func (a cliEnv) sameAs(b cliEnv) bool {
+	if a == nil || b == nil {
+		return a == nil && b == nil
+	}
+	return reflect.ValueOf(a).Pointer() == reflect.ValueOf(b).Pointer()
+}
 
 func (e *cliEngine) eval(v ssa.Value, env cliEnv, depth int) absVal {
 	if a, ok := env[v]; ok {
@@ -204,16 +213,20 @@ func (e *cliEngine) eval(v ssa.Value, env cliEnv, depth int) absVal {
 // path can end: process exit with a code, or return.
 func (e *cliEngine) outcomes(fn *ssa.Function, blk *ssa.BasicBlock, idx int, env cliEnv, depth int, via []string) []outcome {
 	var out []outcome
+	// the exploration is per control-flow edge: on entering a block its phis are bound to the value
+	// of the edge taken (an exit status or an error merged after a switch is known per path)
 	type st struct {
-		b *ssa.BasicBlock
-		i int
+		b   *ssa.BasicBlock
+		i   int
+		env cliEnv
 	}
-	seen := map[*ssa.BasicBlock]bool{}
-	work := []st{{blk, idx}}
+	seen := map[string]bool{}
+	work := []st{{blk, idx, env}}
 	for len(work) > 0 {
 		s := work[len(work)-1]
 		work = work[:len(work)-1]
 		b := s.b
+		env := s.env
 		ended := false
 		for i := s.i; i < len(b.Instrs) && !ended; i++ {
 			switch x := b.Instrs[i].(type) {
@@ -268,9 +281,44 @@ func (e *cliEngine) outcomes(fn *ssa.Function, blk *ssa.BasicBlock, idx int, env
 					}
 				}
 			}
-			if !seen[nx] {
-				seen[nx] = true
-				work = append(work, st{nx, 0})
+			env2 := env
+			keyb := ""
+			predIdx := -1
+			for pi, p := range nx.Preds {
+				if p == b {
+					predIdx = pi
+					if len(b.Succs) == 2 && b.Succs[0] == b.Succs[1] && si == 1 {
+						continue
+					}
+					break
+				}
+			}
+			for _, in := range nx.Instrs {
+				phi, isPhi := in.(*ssa.Phi)
+				if !isPhi {
+					break
+				}
+				if predIdx < 0 || predIdx >= len(phi.Edges) {
+					continue
+				}
+				val := e.eval(phi.Edges[predIdx], env, depth)
+				if env2.sameAs(env) {
+					env2 = cliEnv{}
+					for k, v := range env {
+						env2[k] = v
+					}
+				}
+				if val.k == absUnknown {
+					delete(env2, phi)
+				} else {
+					env2[phi] = val
+				}
+				keyb += fmt.Sprintf("%s=%v;", phi.Name(), val)
+			}
+			sk := fmt.Sprintf("%d|%d|%s", nx.Index, predIdx, keyb)
+			if !seen[sk] {
+				seen[sk] = true
+				work = append(work, st{nx, 0, env2})
 			}
 		}
 	}
@@ -439,7 +487,16 @@ func ruleCLI(w *World, r *Report) {
 					okv, why = false, "exit status on the success side is not processRepairChecker(...)"
 					continue
 				}
-				p := deepPath(stripConv(pc.Call.Args[0]))
+				cav := stripConv(pc.Call.Args[0])
+				// the counts of both formats may be merged after the switch: take the edge that comes from this call
+				if phi, isPhi := cav.(*ssa.Phi); isPhi {
+					for ei, pred := range phi.Block().Preds {
+						if ei < len(phi.Edges) && call.Block().Dominates(pred) {
+							cav = stripConv(phi.Edges[ei])
+						}
+					}
+				}
+				p := deepPath(cav)
 				rootOK := false
 				if p.Root == ssa.Value(call) && strings.HasPrefix(p.Path, "#0") {
 					rootOK = true
